@@ -1192,6 +1192,8 @@ class AI(object):
             return
         ext = self._array_extent(pv.target, u)
         if ext is None:
+            if isinstance(pv.target, tuple) and pv.target[:1] == ('symbuf',):
+                (self.obs.store if store else self.obs.load)(self, e, pv, None, s)   # caller-supplied buffer of unknown extent
             return
         if store:
             self.obs.store(self, e, pv, ext, s)
